@@ -232,6 +232,29 @@ def getitem(base: T, idx: T) -> T:
         if isinstance(c_, T) and c_.op == "const" and isinstance(c_.args[0], (int, float)) and not isinstance(c_.args[0], bool) \
                 and isinstance(a_, T) and a_.op not in ("const",):
             return mk("binop", base.args[0], getitem(a_, idx), c_)
+    if base.op == "getitem" and base.args[1].op == "slice" and idx.op == "const" and isinstance(idx.args[0], int) \
+            and not isinstance(idx.args[0], bool) and idx.args[0] >= 0:
+        lo, hi, st = base.args[1].args
+        # X[:k][i] == X[i]  and  X[j:][i] == X[j + i]   (literal bounds, unit step, i inside the slice)
+        if (st.op == "const" and st.args[0] in (None, 1)) and lo.op == "const" and hi.op == "const":
+            l_, h_ = lo.args[0], hi.args[0]
+            if (l_ is None or (isinstance(l_, int) and l_ >= 0)) and (h_ is None or (isinstance(h_, int) and h_ >= 0)):
+                j = (l_ or 0) + idx.args[0]
+                if h_ is None or j < h_:
+                    return getitem(base.args[0], const(j))
+    if base.op == "comp" and idx.op != "slice":
+        e_ = _comp_element(base, idx)
+        if e_ is not None:
+            return e_
+    if base.op == "unzip" and idx.op == "const" and isinstance(idx.args[0], int) and not isinstance(idx.args[0], bool):
+        # zip(*[E(i) for i in range(n)])[k]  ==  (E(i)[k] for i in range(n))
+        cr = _comp_range(base.args[0])
+        if cr is not None:
+            return mk("comp", "list", mk("tuple", getitem(cr[0], idx)), base.args[0].args[2])
+    if base.op == "loopout" and idx.op != "slice" and len(base.args) == 4:
+        e_ = _map_loop_element(base, idx)
+        if e_ is not None:
+            return e_
     if idx.op != "slice" and _running_factorial(base):
         # accumulate(range(1, M), operator.mul)[n]  ==  1 * 2 * ... * (n + 1)  ==  (n + 1)!
         return call(name("math.factorial"), mk("binop", "+", idx, const(1)))
@@ -246,6 +269,73 @@ def getitem(base: T, idx: T) -> T:
             return ga
         return mk("phi", c, ga, gb)
     return mk("getitem", base, idx)
+
+
+def _comp_range(base: T):
+    """[E(i) for i in range(n)]  ->  (E, the iteration term, n); None for any other comprehension"""
+    if not (base.op == "comp" and base.args[0] == "list" and len(base.args) == 3):
+        return None
+    elts, gen = base.args[1], base.args[2]
+    if not (elts.op == "tuple" and len(elts.args) == 1 and gen.op == "gen" and len(gen.args) == 1):
+        return None
+    it = gen.args[0]
+    if not (it.op == "call" and it.args[0].op == "name" and it.args[0].args[0] == "builtins.range"):
+        return None
+    n = None
+    if len(it.args) == 2 and it.args[1].op != "kw":
+        n = it.args[1]
+    elif len(it.args) == 3 and it.args[1].op == "const" and it.args[1].args[0] == 0:
+        n = it.args[2]
+    if n is None:
+        return None
+    iters = [x for x in subterms(elts.args[0]) if x.op == "iter" and x.args[0] is it]
+    if len({x.uid for x in iters}) > 1:
+        return None
+    return elts.args[0], (iters[0] if iters else None), n
+
+
+def _comp_element(base: T, idx: T) -> Optional[T]:
+    """[E(i) for i in range(n)][k]  ==  E(k)   (k a non-negative index: a loop variable or a literal >= 0)"""
+    cr = _comp_range(base)
+    if cr is None:
+        return None
+    if idx.op == "const" and not (isinstance(idx.args[0], int) and idx.args[0] >= 0):
+        return None
+    E, it, n = cr
+    return substitute(E, {it: idx}) if it is not None else E
+
+
+def _map_loop_element(L: T, idx: T) -> Optional[T]:
+    """for i in range(n): X[i] = E(i, X[i])   ->   X_after[k] == E(k, X_before[k])
+    (a loop that rewrites every slot from its own old value only; k is assumed to be one of the slots visited, which
+    is what the indexed statement  X[k] = E(k, X[k])  it stands for assumes too)"""
+    lid, name_, init, fin = L.args
+    if not (isinstance(fin, T) and fin.op == "setitem" and isinstance(init, T)):
+        return None
+    prev, key, val = fin.args
+    if not (prev.op == "havoc" and prev.args[0] == lid and prev.args[1] == name_):
+        return None
+    if not (key.op == "iter" and key.args[0].op == "call" and key.args[0].args[0].op == "name"
+            and key.args[0].args[0].args[0] == "builtins.range" and len(key.args[0].args) == 2):
+        return None
+    if idx.op == "const" and not (isinstance(idx.args[0], int) and not isinstance(idx.args[0], bool) and idx.args[0] >= 0):
+        return None
+    own = getitem(prev, key)
+    # the old object may be read at the slot being written only
+    def reads_elsewhere(t, seen):
+        if t.uid in seen:
+            return False
+        seen.add(t.uid)
+        if t is own:
+            return False
+        if t is prev:
+            return True
+        if t.op in ("havoc", "loopout") and t is not prev and len(t.args) > 1 and t.args[0] == lid:
+            return True           # another loop-carried variable: not a pure per-slot map
+        return any(isinstance(a, T) and reads_elsewhere(a, seen) for a in t.args)
+    if reads_elsewhere(val, set()):
+        return None
+    return substitute(substitute(val, {own: getitem(init, key)}), {key: idx})
 
 
 def _peel_list(t: T) -> T:
@@ -275,6 +365,10 @@ def sequence_length(t: T) -> Optional[T]:
     t = _peel_list(t)
     if t.op in ("tuple", "list") and not any(isinstance(x, T) and x.op == "star" for x in t.args):
         return const(len(t.args))
+    if t.op == "comp":
+        cr = _comp_range(t)
+        if cr is not None:
+            return cr[2]
     if t.op == "call" and t.args[0].op == "name":
         nm = t.args[0].args[0]
         pos = [a for a in t.args[1:] if a.op != "kw"]
@@ -371,6 +465,9 @@ def _canon_average(t: T) -> T:
 
 
 def call(f: T, *args: T) -> T:
+    if f.op == "name" and f.args[0] == "builtins.getattr" and len(args) == 2 and args[1].op == "const" and \
+            isinstance(args[1].args[0], str) and args[0].op != "kw":
+        return mk("attr", args[0], args[1].args[0])         # getattr(obj, "name") is obj.name
     t = mk("call", f, *args)
     t = _canon_where(t)
     return _canon_average(t) if t.op == "call" else t
@@ -485,6 +582,7 @@ class Frame:
         self.caller: Optional["Frame"] = None
         self.exact_self = False  # self is exactly self_class (no subclasses)
         self.inlined: List[Tuple[T, "Frame"]] = []  # (result term, frame) of callees evaluated in place
+        self.mutated: set = set()    # local names (parameters) whose object received a subscript store
 
     def lookup(self, nm: str) -> Optional[T]:
         f = self
@@ -574,6 +672,29 @@ def is_unnamed_helper(callee) -> bool:
     return True
 
 
+def walker_state_glue(callee) -> bool:
+    """Inlining policy shared by the step / typestate evaluations of sampler and propagator code: a method is evaluated
+    in place when it handles the walker-state dictionary (a dict parameter named prop*), or when it is glue between the
+    kernels the rules speak about -- not jitted, or a private helper no rule names.  The jitted kernels the rules name
+    (_apply_trotprop, _multiply_constant, ...) stay calls."""
+    if callee.module not in ("sampling", "propagation") or callee.cls is None:
+        return False
+    for prm in callee.params:
+        if getattr(prm.annotation, "id", None) == "dict" and prm.name.startswith("prop"):
+            return True
+    n = callee.name
+    if n.startswith("__") or n == "init_prop_data" or callee.is_abstract or getattr(callee, "is_custom_jvp", False):
+        return False
+    try:
+        if callee.is_refusal():
+            return False
+    except Exception:
+        pass
+    if not callee.is_jit and n.startswith("_"):
+        return True
+    return n.startswith("_") and not _named_by_rules(callee)
+
+
 class Evaluator:
     """Builds terms for function bodies of a Program.
 
@@ -596,6 +717,8 @@ class Evaluator:
     # ----------------------------------------------------------------- events
     def emit(self, frame: Frame, kind: str, line: int, data):
         e = Event(kind, line, data, frame.path, frame.loops, frame)
+        if getattr(self, "_mute", 0):
+            return e            # a side evaluation (layout inference): not part of the program's event stream
         self.events.append(e)
         self.on_event(e)
         return e
@@ -939,6 +1062,15 @@ class Evaluator:
             return call(name("builtins.range"), ln_), X
         return None
 
+    @staticmethod
+    def _comp_as_index_loop(it: T):
+        """for x in [E(i) for i in range(n)]  ==  for i in range(n): x = E(i)   ->  (range(n), the comprehension)"""
+        c = _peel_list(it)
+        cr = _comp_range(c)
+        if cr is not None:
+            return call(name("builtins.range"), cr[2]), c
+        return None
+
     def const_sequence(self, it: T) -> Optional[List[T]]:
         """Elements of an iterable whose length is a small literal: range(2), range(1, 3), (a, b), [a, b].
         Such loops are copy-paste in disguise (`for spin in range(2)`): they are unrolled, not abstracted."""
@@ -1005,6 +1137,8 @@ class Evaluator:
                 lay = None
             if lay is not None and lay[0] == "tup":
                 return [getitem(t, const(i)) for i in range(len(lay[1]))]
+            if lay is not None and lay[0] == "arr":
+                return [getitem(t, const(i)) for i in range(lay[1])]      # the rows of an array built from a display
         return None
 
     @staticmethod
@@ -1171,6 +1305,8 @@ class Evaluator:
                 new = self._store_path(base, keys, v)
                 if node.id in fr.env.vars or fr.parent is None:
                     fr.env.vars[node.id] = new
+                    if getattr(fr, "mutated", None) is not None:
+                        fr.mutated.add(node.id)
                 else:
                     # store through a captured variable: rebind in the defining frame
                     f = fr.parent
@@ -1222,6 +1358,18 @@ class Evaluator:
     def ex_Name(self, fr, n):
         v = fr.lookup(n.id)
         if v is not None:
+            if v.op == "phi" and fr.path and len(v.args) == 3:
+                # a variable bound under `if c:` and read under a later `if c:` -- on this path it has the bound value
+                known = {}
+                for c_, pol_ in fr.path:
+                    if isinstance(c_, T):
+                        known[c_] = pol_
+                for _ in range(8):
+                    if v.op == "phi" and len(v.args) == 3 and v.args[0] in known and isinstance(v.args[1], T) and \
+                            isinstance(v.args[2], T):
+                        v = v.args[1] if known[v.args[0]] else v.args[2]
+                    else:
+                        break
             return v
         return self.global_name(fr, n.id, n.lineno)
 
@@ -1325,12 +1473,22 @@ class Evaluator:
             sc = match_scan(t)
             if sc is not None and sc[0].op == "closure" and self._depth < self.MAX_INLINE_DEPTH:
                 try:
-                    body = self.open_closure(sc[0], [mk("scan_carry", sc[1], 0), mk("scan_x", sc[2], 0)], at_call=t)
+                    self._mute = getattr(self, "_mute", 0) + 1
+                    try:
+                        body = self.open_closure(sc[0], [mk("scan_carry", sc[1], 0), mk("scan_x", sc[2], 0)], at_call=t)
+                    finally:
+                        self._mute -= 1
                     bl = self.layout_of(body, fr, depth + 1)
                     if bl is not None and bl[0] == "tup" and len(bl[1]) == 2:
                         lay = ("tup", [bl[1][0] if bl[1][0] is not None else self.layout_of(sc[1], fr, depth + 1), bl[1][1]])
                 except Exception:
                     lay = None
+            elif array_fn(t) in ("array", "asarray", "stack") and call_parts(t)[1] and \
+                    call_parts(t)[1][0].op in ("list", "tuple") and (
+                        call_parts(t)[2].get("axis") is None or call_parts(t)[2]["axis"] is const(0)) and not any(
+                        x.op == "star" for x in call_parts(t)[1][0].args):
+                # jnp.array([a, b]): iterating / indexing its leading axis gives its len(display) rows
+                lay = ("arr", len(call_parts(t)[1][0].args))
             elif t.args[0].op in ("attr", "fn"):
                 try:
                     cands = self.resolve_callees(t.args[0], fr)
@@ -1594,6 +1752,14 @@ class Evaluator:
                 conds = [self.eval(sub, c) for c in g.ifs]
                 gens.append(mk("gen", it, *conds))
                 continue
+            cm_ = self._comp_as_index_loop(it)
+            if cm_ is not None:
+                it, src_ = cm_
+                ix_ = mk("iter", it, n.lineno)
+                self.assign(sub, g.target, getitem(src_, ix_), n.lineno)
+                conds = [self.eval(sub, c) for c in g.ifs]
+                gens.append(mk("gen", it, *conds))
+                continue
             self.assign(sub, g.target, mk("iter", it, n.lineno), n.lineno)
             conds = [self.eval(sub, c) for c in g.ifs]
             gens.append(mk("gen", it, *conds))
@@ -1694,6 +1860,8 @@ class Evaluator:
             if f.args[0] in ("builtins.tuple", "builtins.list") and a0.op in ("tuple", "list") and not any(
                     isinstance(x, T) and x.op == "star" for x in a0.args):
                 return mk("tuple" if f.args[0].endswith("tuple") else "list", *a0.args)
+            if f.args[0] in ("builtins.tuple", "builtins.list") and _comp_range(a0) is not None:
+                return a0
         t = call(f, *args, *kws)
         self.note_line(t, line)
         if t.op != "call":
@@ -1718,6 +1886,18 @@ class Evaluator:
         jax.tree_util.tree_map over list displays, operator.itemgetter(...)(x).  None: not one of these / not foldable."""
         nm = f.args[0]
         kwd = {k.args[0]: k.args[1] for k in kws if isinstance(k, T) and k.op == "kw"}
+        if nm == "builtins.zip" and len(args) == 1 and args[0].op == "star" and not kws:
+            inner = args[0].args[0]
+            rows = self.static_elements(inner)
+            if rows is not None:
+                cols = [self.static_elements(r_) for r_ in rows]
+                if rows and all(c_ is not None for c_ in cols) and len({len(c_) for c_ in cols}) == 1:
+                    return mk("list", *[mk("tuple", *[c_[j] for c_ in cols]) for j in range(len(cols[0]))])
+                if rows:
+                    return None
+            if _comp_range(_peel_list(inner)) is not None:
+                return mk("unzip", _peel_list(inner))
+            return None
         if any(isinstance(a, T) and a.op in ("star", "dstar") for a in args + kws):
             return None
         if nm.startswith("operator."):
@@ -1765,7 +1945,14 @@ class Evaluator:
         if nm == "builtins.map" and len(args) >= 2 and not kws:
             rows = zipped(args[1:])
             if rows is None:
-                return None
+                # sequences of a length the source does not fix:  map(f, X, Y)  ==  [f(X[i], Y[i]) for i in range(len(X))]
+                # (all of them are taken to be as long as the first -- the [up, dn] pairs this code maps over)
+                X0 = _peel_list(args[1])
+                ln_ = sequence_length(X0)
+                rng = call(name("builtins.range"), ln_ if ln_ is not None else call(name("builtins.len"), X0))
+                ix_ = mk("iter", rng, line)
+                el_ = self.apply(fr, args[0], [getitem(_peel_list(a_), ix_) for a_ in args[1:]], [], line)
+                return mk("comp", "list", mk("tuple", el_), mk("gen", rng))
             return mk("list", *[self.apply(fr, args[0], row, [], line) for row in rows])
         if nm == "builtins.zip" and args and not kws:
             rows = zipped(args)
@@ -1796,15 +1983,33 @@ class Evaluator:
                 return None
             return mk("list", *[e for q in seqs for e in q])
         if nm in ("jax.tree_util.tree_map", "jax.tree_map", "jax.tree.map") and len(args) >= 2 and not kws:
+            def children(t):
+                """sub-trees of a pytree node whose structure the source fixes (a display, or a value whose layout is a
+                tuple / list: a scan output, the result of an in-package function); None for a leaf / unknown"""
+                if not isinstance(t, T):
+                    return None
+                if t.op in ("list", "tuple") and not any(x.op == "star" for x in t.args):
+                    return t.op, list(t.args)
+                if t.op in ("getitem", "call", "scan_x", "scan_carry", "vmap_elem"):
+                    try:
+                        lay = self.layout_of(t, fr)
+                    except Exception:
+                        lay = None
+                    if lay is not None and lay[0] == "tup":
+                        return "list", [getitem(t, const(i)) for i in range(len(lay[1]))]
+                return None
+
             def tmap(trees):
-                t0 = trees[0]
-                if isinstance(t0, T) and t0.op in ("list", "tuple") and all(
-                        isinstance(x, T) and x.op == t0.op and len(x.args) == len(t0.args) for x in trees):
-                    return mk(t0.op, *[tmap([x.args[i] for x in trees]) for i in range(len(t0.args))])
+                ch = [children(x) for x in trees]
+                if ch[0] is not None and all(c_ is not None and len(c_[1]) == len(ch[0][1]) for c_ in ch):
+                    kids = [tmap([c_[1][i] for c_ in ch]) for i in range(len(ch[0][1]))]
+                    return None if any(k_ is None for k_ in kids) else mk(ch[0][0], *kids)
+                if ch[0] is not None:
+                    return None
                 return self.apply(fr, args[0], list(trees), [], line)
-            t0 = args[1]
-            if isinstance(t0, T) and t0.op in ("list", "tuple"):
-                return tmap(list(args[1:]))
+            if children(args[1]) is not None:
+                r_ = tmap(list(args[1:]))
+                return r_
             return None
         return None
 
@@ -1985,6 +2190,18 @@ class Evaluator:
             self.emit(fr, "exit_call", line, (callee, g))
             return g
         r = self.result(sub)
+        # a subscript store through a parameter mutates the caller's object: every caller variable that holds the
+        # object passed sees the stores (the callee may not hand the object back at all: key-advancing helpers)
+        for prm in callee.params:
+            if prm.name in sub.mutated and prm.name in binding:
+                t0, t1 = binding[prm.name], sub.env.vars.get(prm.name)
+                root = t1
+                while isinstance(root, T) and root.op == "setitem":
+                    root = root.args[0]
+                if isinstance(t1, T) and t1 is not t0 and root is t0 and t0.op not in ("const",):
+                    for nm_, val_ in list(fr.env.vars.items()):
+                        if val_ is t0:
+                            fr.env.vars[nm_] = t1
         self.emit(fr, "exit_call", line, (callee, r))
         fr.inlined.append((r, sub))
         # an exception raised inside a callee evaluated in place is an exit of the caller on that path
